@@ -38,6 +38,10 @@ def onStartResAwait (a : Await) (resStarted : Int) : Await := { a with startFini
 /-- what the pool does with the start result: an error that is not the start context's own fails the pool -/
 def onStartResult (isCtxErr : Ctx → Bool) : List PoolAct := if isCtxErr .start then [] else [.reportErr]
 
+/-- what the pool does with the result of `Provider.Run` / of `Aggregator.Run` (`case err := <-ah.providerErr`,
+`case err := <-ah.aggregatorErr`): an error that is not the run context's own fails the pool -/
+def onOtherResult (isCtxErr : Ctx → Bool) : List PoolAct := if isCtxErr .run then [] else [.reportErr]
+
 /-- what the pool does with a run result (the current shape of the `if` chain; `onInstanceResult_spec` states what
 matters of it) -/
 def onRunResult (outOfAmmo startFinished : Bool) (isCtxErr : Ctx → Bool) : List PoolAct :=
@@ -110,6 +114,9 @@ inductive PEvent
   | recvRun (i : Nat)
   /-- the await loop receives the result of `startInstances` -/
   | recvStart
+  /-- the await loop receives the result of `Provider.Run` or of `Aggregator.Run` (`isCtxErr`: it is nil or the run
+  context's own error) -/
+  | recvOther (isCtxErr : Bool)
 deriving Repr, DecidableEq
 
 def isLoopEvent : Event → Bool
@@ -171,6 +178,8 @@ def poolStep (c : Cfg) (p : PSt) : PEvent → PSt
       if p.base.phase != .done || p.aw.startFinished then p else
       let acts := onStartResult (fun _ => p.base.ret != .create)
       checkAll { p with aw := onStartResAwait p.aw p.base.started, base := acts.foldl (applyAct c) p.base }
+  | .recvOther isCtxErr =>
+      { p with base := (onOtherResult (fun _ => isCtxErr)).foldl (applyAct c) p.base }
 
 def poolRun (c : Cfg) (p : PSt) (evs : List PEvent) : PSt := evs.foldl (poolStep c) p
 
